@@ -377,6 +377,8 @@ class ProcessRunner(Runner, ABC):
                 continue
             try:
                 task_result = future.result()
+            except KeyboardInterrupt:
+                raise
             except BaseException as ex:
                 yield (task, ex)
             else:
